@@ -203,6 +203,26 @@ def wfLevels : List Level → List Nat → Nat → Option Nat
           ∧ segmentsSorted l.pos l.crd ∧ l.crd.all (fun c => 0 ≤ c ∧ c < d)
       then wfLevels ls dims.tail l.crd.length else none
 
+/-- the checks `taco_structure_to_cffi` performs before accepting raw arrays (used by `__setstate__`,
+i.e. unpickling, and by every constructor); weaker than `wfLevels`: it does not look at the order of
+coordinates inside a segment -/
+def validateLevels : List Level → List Nat → Nat → Option Nat
+  | [], _, n => some n
+  | l :: ls, dims, n =>
+    let d := dims.headD 0
+    match l.mode with
+    | .dense => if l.pos = [] ∧ l.crd = [] then validateLevels ls dims.tail (n * d) else none
+    | .compressed =>
+      if l.pos.length = n + 1 ∧ l.pos.head? = some 0 ∧ monotone l.pos
+          ∧ l.pos.getLast? = some (Int.ofNat l.crd.length) ∧ l.crd.all (fun c => 0 ≤ c ∧ c < d)
+      then validateLevels ls dims.tail l.crd.length else none
+
+def validate (t : Stored) : Bool :=
+  validOrdering t.ordering t.levels.length && t.dims.length == t.levels.length &&
+  match validateLevels t.levels t.levelDims 1 with
+  | some n => t.vals.length == n
+  | none => false
+
 def wfCheck (t : Stored) : Bool :=
   validOrdering t.ordering t.levels.length && t.dims.length == t.levels.length &&
   match wfLevels t.levels t.levelDims 1 with
